@@ -6,7 +6,7 @@
 #define SPEC_OPPOSITE(d) (((d) % 4u) < 2u ? (d) + 2u : (d) - 2u)
 
 static surface_t SurfaceSelector_opposite_surface(surface_t d_)
-__CPROVER_requires(d_ <= UINT_MAX - 2u)
+__CPROVER_requires(d_ % 4u >= 2u || d_ <= UINT_MAX - 2u)
 __CPROVER_assigns()
 __CPROVER_ensures(__CPROVER_return_value == SPEC_OPPOSITE(d_))
 /* an involution that never maps a drive to itself */
@@ -32,9 +32,10 @@ __CPROVER_ensures(d_ == 0 ==> g_exc != EXC_NONE);
 
 /* fits(i, n): i and its opposite side are free, and i, i+2, ..., i+2(n-1) are free and exist */
 static bool check_sequence_fits(surface_t i, const size_t to_do, struct occ_fn *occupied)
-__CPROVER_requires(g_exc == EXC_NONE && i <= UINT_MAX - 2u && g_i0 == i)
-__CPROVER_assigns(g_exc, g_exc_by_pointer, g_cf_witness)
+__CPROVER_requires(g_exc == EXC_NONE && i < UINT_MAX)
+__CPROVER_assigns(g_exc, g_exc_by_pointer, g_cf_witness, g_i0)
 __CPROVER_ensures(g_exc == EXC_NONE)
+__CPROVER_ensures(__CPROVER_return_value ==> (unsigned long)i + 2ul * to_do <= (unsigned long)UINT_MAX)
 __CPROVER_ensures(__CPROVER_return_value ==>
                   (!g_occ[i] && !g_occ[SPEC_OPPOSITE(i)] &&
                    to_do <= (1ul << 31) &&
@@ -44,4 +45,32 @@ __CPROVER_ensures(!__CPROVER_return_value ==>
                    (g_occ[g_cf_witness] && (
                                             (g_cf_witness >= i && (g_cf_witness - i) % 2u == 0 && (g_cf_witness - i) / 2u < (to_do == 0 ? 1 : to_do)))) ||
                    to_do > (1ul << 31) || (unsigned long)i + 2ul * to_do >= UINT_MAX + 1ul));
+#endif
+
+/* ---- connect_drives (both policies), for images of at most two surfaces (every container except MMB) --------- */
+#ifndef VERIF_CONNECT_H
+#define VERIF_CONNECT_H
+/* occupancy during the call = occupancy before it (g_occ, immutable) plus the drives this call connected */
+#define IS_NEW(d) ((g_new_n >= 1 && g_new0 == (d)) || (g_new_n >= 2 && g_new1 == (d)))
+#define OCC_NOW(d) (g_occ[d] || IS_NEW(d))
+/* fits(m, k): m and its opposite are free, and m (k >= 1) and m+2 (k >= 2) are free -- pre-state occupancy */
+#define FITS2(m, k) ((unsigned long)(m) + 2ul * (k) <= (unsigned long)UINT_MAX && !g_occ[m] && !g_occ[SPEC_OPPOSITE(m)] && ((k) < 2 || !g_occ[(m) + 2u]))
+
+static bool connect_drives(size_t drives_n, int how)
+__CPROVER_requires(drives_n >= 1 && drives_n <= 2 && g_new_n == 0 && g_exc == EXC_NONE)
+/* drive numbers in use are small (a real configuration attaches a handful of images) */
+__CPROVER_requires(g_m < (1u << 30) ==> 1)
+__CPROVER_assigns(g_new_n, g_new0, g_new1, g_exc, g_exc_by_pointer, g_cf_witness, g_i0)
+/* success: exactly drives_n drives newly connected, none of them occupied before (earlier images neither move
+   nor get hidden: g_occ is not assigned at all) */
+__CPROVER_ensures(__CPROVER_return_value ==> (g_exc == EXC_NONE && g_new_n == drives_n && !g_occ[g_new0] && (drives_n < 2 || (!g_occ[g_new1] && g_new1 != g_new0))))
+/* physical policy: m, m+2 for the LEAST m that fits ... */
+__CPROVER_ensures((__CPROVER_return_value && how == DriveAllocation_PHYSICAL) ==>
+                  (FITS2(g_new0, drives_n) && (drives_n < 2 || g_new1 == g_new0 + 2u) && (g_m < g_new0 ==> !FITS2(g_m, drives_n))))
+/* ... hence a new image never takes the opposite side of a drive another image occupies */
+__CPROVER_ensures((__CPROVER_return_value && how == DriveAllocation_PHYSICAL) ==>
+                  (!g_occ[SPEC_OPPOSITE(g_new0)] && (drives_n < 2 || !g_occ[SPEC_OPPOSITE(g_new1)])))
+/* first-free policy: the lowest free numbers, in order */
+__CPROVER_ensures((__CPROVER_return_value && how != DriveAllocation_PHYSICAL) ==>
+                  ((g_m < g_new0 ==> g_occ[g_m]) && (drives_n < 2 || (g_new0 < g_new1 && ((g_m > g_new0 && g_m < g_new1) ==> g_occ[g_m])))));
 #endif
